@@ -22,7 +22,7 @@ from vlib.core import Result, assert_in_tree
 assert_in_tree(memoing)
 
 PID = "C21"
-RULE = ("cases: transport (a Memoer subclass with a scripted send, or the real udp PeerMemoer on a scripted datagram socket "
+RULE = ("cases: transport (a Memoer subclass with a scripted send, or the real udp / uxd PeerMemoer on a scripted datagram socket "
         "whose sendto raises EAGAIN / EWOULDBLOCK / ENOBUFS / ENOMEM for would-block) x 1-5 queue operations (memo of 1-400 code points through memoit/rend with a small gram size, or a raw gram "
         "through gramit) to 1-3 destinations, interleaved with service calls (serviceTxGramsOnce, serviceTxGrams, "
         "serviceAllTxOnce, serviceAllTx, serviceAll), and a script of per-send-call outcomes: accept k bytes (k = 0 .. len) or "
@@ -156,11 +156,24 @@ def make_udp(model, size):
     return m
 
 
+def make_uxd(model, size):
+    """The real uxd PeerMemoer (unix datagram Peer.send code path) on a scripted datagram socket.  The peer is never
+    opened, so no socket file or directory is created."""
+    from hio.core.uxd import peermemoing
+    m = peermemoing.PeerMemoer(name="c21", reopen=False, temp=True, size=size, txgs=LogDeque(model.queued))
+    m.ls = FakeDgramSocket(model)
+    m.opened = True
+    return m
+
+
 def run_case(case):
     r = Result()
     model = Model(case["script"], r)
-    udp = case.get("transport") == "udp"
-    if udp:
+    udp = case.get("transport") in ("udp", "uxd")
+    if case.get("transport") == "uxd":
+        m = make_uxd(model, case["size"])
+        dsts = ["/tmp/hio/uxd/a.uxd", "/tmp/hio/uxd/b.uxd", "/tmp/hio/uxd/c.uxd"]
+    elif udp:
         m = make_udp(model, case["size"])
         dsts = [("127.0.0.1", 7001), ("127.0.0.1", 7002), ("10.0.0.9", 7003)]
     else:
@@ -199,7 +212,7 @@ def run_case(case):
                                                    None if model.remaining is None else len(model.remaining), len(m.txgs),
                                                    len(m.txbs[0]), m.txbs[1]))
     r.nontrivial = model.zero_fresh and model.partial
-    r.labels.append("transport:udp-peer" if udp else "transport:scripted-memoer")
+    r.labels.append("transport:%s-peer" % case["transport"] if udp else "transport:scripted-memoer")
     if model.zero_fresh:
         r.labels.append("zero-on-fresh-gram")
     if model.partial:
@@ -231,7 +244,7 @@ def _strategy():
                     st.tuples(st.just("err"), st.sampled_from(UNREACHABLE))).map(list)
     return st.fixed_dictionaries({"drain": st.sampled_from(["serviceAllTx", "serviceAllTx", "serviceTxGramsOnce", "serviceAllTxOnce",
                                                             "serviceAllOnce", "serviceTxGrams", "serviceAll"]),
-                                  "transport": st.sampled_from(["memoer", "memoer", "udp"]), "size": st.sampled_from([33, 34, 40, 64, 100, 257, 65535]),
+                                  "transport": st.sampled_from(["memoer", "memoer", "udp", "uxd"]), "size": st.sampled_from([33, 34, 40, 64, 100, 257, 65535]),
                                   "ops": ops,
                                   "script": st.one_of(
                                       st.lists(tok, max_size=30),
